@@ -1,2 +1,98 @@
-(* C35 placeholder while the runner is brought up *)
-From verif Require Import lib.Base model.C35.
+(* C35 — Markdown rendering is total and agrees with CommonMark on the supported
+   subset.  Property theorems only; every proof is [exact <lemma>].
+   What is proved here covers termination and well-formedness of the modelled
+   kernels of pkg/md and the soundness of the oracles evaluated on the
+   implementation's output; agreement with CommonMark itself is validated
+   differentially on every run (checks/C35.md), it is not a theorem. *)
+From Coq Require Import String.
+From verif Require Import lib.Base model.C35_Bal model.C35_Inline model.C35 proofs.C35_proofs.
+
+(* The delimiter-stack loop of processEmphasis terminates on every delimiter
+   stack: the measure (remaining delimiter text + entries still to scan)
+   decreases in every iteration, so the model never runs out of fuel. *)
+Theorem C35_processEmphasis_terminates : forall ents, process_emphasis ents <> None.
+Proof. exact process_emphasis_terminates. Qed.
+Print Assumptions C35_processEmphasis_terminates.
+
+(* For every delimiter stack, the emphasis start/end operations emitted are
+   balanced and properly nested, strong with strong and plain with plain. *)
+Theorem C35_emphasis_well_nested : forall ents l,
+  process_emphasis ents = Some l ->
+  bal_check Bool.eqb [] (map otok_tok (flatten l)) = true.
+Proof. exact emphasis_well_nested. Qed.
+Print Assumptions C35_emphasis_well_nested.
+
+(* canOpenCloseEmphasis is the table of its documentation comment, for every
+   combination of categories of the neighbouring runes. *)
+Theorem C35_flanking_is_documented_table : forall us sp pp sn pn,
+  sp && pp = false -> sn && pn = false ->
+  can_open_close us sp pp sn pn =
+  (table_open us (cat sp pp) (cat sn pn), table_close us (cat sp pp) (cat sn pn)).
+Proof. exact flank_table. Qed.
+Print Assumptions C35_flanking_is_documented_table.
+
+(* Code spans: the closer found is a run of exactly as many backticks as the
+   opener, at or after the start position (weaker than the full longest-match
+   rule: minimality of the position is sampled, not proved). *)
+Theorem C35_codespan_closer_exact_partial : forall fuel s k i j,
+  find_backtick_run fuel s k i = Some j ->
+  (i <= j)%nat /\ span is_bt (skipn j s) = k.
+Proof. exact codespan_closer_exact. Qed.
+Print Assumptions C35_codespan_closer_exact_partial.
+
+(* parseLinkTail: the scan of a bare destination consumes input in every
+   iteration, the fuel (length + 1) is never exhausted. *)
+Theorem C35_parseLinkTail_total : forall text, parse_link_tail text <> TailFuel.
+Proof. exact parse_link_tail_total. Qed.
+Print Assumptions C35_parseLinkTail_total.
+
+(* escapeHTML: no raw angle bracket or double quote survives, and decoding the
+   four references gives the input back. *)
+Theorem C35_html_escape_safe : forall s, escape_safe s (escape_html s) = true.
+Proof. exact html_escape_safe. Qed.
+Print Assumptions C35_html_escape_safe.
+
+(* The line splitter loses nothing: the lines are newline-free and joining
+   them (plus the final newline, if any) gives the text back. *)
+Theorem C35_line_split_lossless : forall s, check_lines s (split_lines s) = true.
+Proof. exact line_split_lossless. Qed.
+Print Assumptions C35_line_split_lossless.
+
+(* Container blocks: whatever sequence of open / closeBlocks(keep) / leaf steps
+   the block parser performs, with the final closeBlocks(0), the emitted
+   start/end operations are balanced and closed innermost first. *)
+Theorem C35_blocks_closed_lifo : forall steps, Bal (run_blocks steps []).
+Proof. exact blocks_closed_lifo. Qed.
+Print Assumptions C35_blocks_closed_lifo.
+
+(* The oracles evaluated on the implementation's observations are sound: a
+   sequence accepted by the stack checker is balanced (used for HTML tags,
+   emphasis operations and container operations), and accepted HTML output
+   lexes into a balanced tag sequence with escaped text. *)
+Theorem C35_balance_oracle_sound : forall (K : Type) (eqb : K -> K -> bool),
+  (forall x y, eqb x y = true <-> x = y) ->
+  forall ts, bal_check eqb [] ts = true -> Bal ts.
+Proof. exact (@bal_check_sound). Qed.
+Print Assumptions C35_balance_oracle_sound.
+
+Theorem C35_html_wf_oracle_sound : forall out, html_wf out = true -> WellFormedHTML out.
+Proof. exact html_wf_sound. Qed.
+Print Assumptions C35_html_wf_oracle_sound.
+
+(* non-vacuity: a delimiter stack with rule-of-3 interplay (the runs of
+   "*foo**bar*", all four delimiters able to open and close... the inner ones)
+   and a strong/plain nesting ("***a* b**") *)
+Example C35_example_emphasis :
+  let d id n o c := EDelim (mkDelim id 42 n n o c) in
+  option_map flatten (process_emphasis [d 0%nat 3%nat true false; EItem (IText 1 1); d 2%nat 1%nat false true;
+                                        EItem (IText 3 1); d 4%nat 2%nat false true])
+  = Some [OStart true; OStart false; OText 1 1; OEnd false; OText 3 1; OEnd true]
+  /\ option_map flatten (process_emphasis [d 0%nat 1%nat true false; EItem (IText 1 1); d 2%nat 2%nat true true;
+                                           EItem (IText 3 1); d 4%nat 1%nat false true])
+  = Some [OStart false; OText 1 1; OText 2 2; OText 3 1; OEnd false].
+Proof. vm_compute. split; reflexivity. Qed.
+
+Example C35_example_wf :
+  html_wf (hx "3c703e3c656d3e6120266c743b3c2f656d3e3c6272202f3e3c2f703e0a"%string) = true   (* <p><em>a &lt;</em><br /></p> *)
+  /\ html_wf (hx "3c703e3c656d3e613c2f703e3c2f656d3e"%string) = false.                        (* <p><em>a</p></em> *)
+Proof. vm_compute. split; reflexivity. Qed.
